@@ -16,6 +16,9 @@ cp -r /verif/mc $MC
 sed -i "s#/repo/#$WT/#g" $MC/Cargo.toml $MC/miri12/Cargo.toml $MC/src/*.rs $MC/src/*/*.rs
 rm -rf $MC/.cargo
 if ! ( cd $MC && CARGO_TARGET_DIR=$TGT cargo build --release --offline 2>&1 | grep -E "^error" -A10 | head -30; exit ${PIPESTATUS[0]} ); then echo "BUILD FAILED"; git -C /repo worktree remove --force $WT; rm -rf $MC $ROOT; exit 2; fi
+case " $* " in *" C01 "*)
+  ( cd $MC && RUSTFLAGS="-Zsanitizer=address" cargo +nightly build --release --offline --target x86_64-unknown-linux-gnu --target-dir $TGT/asan 2>&1 | grep -E "^error" -A10 | head -20 ) ;;
+esac
 for id in "$@"; do
   VERIF_ROOT=$ROOT $TGT/release/mc $id ${TIER:-quick} 2>&1 | grep -E "^VIOLATION|signature:|^$id |^KNOWN|MACHINERY" | cut -c1-300 | head -${LINES_MAX:-12}
 done
